@@ -55,7 +55,10 @@ PLANS = {
     },
     "C08": {
         "quick": [("c08q", inst(LeafFam="<-C08Leaves", MaxLeaves=2, MaxCalls=3, OnlyMentioned=False, Method='{"r0", "r1", "r2", "d0"}',
-                                ScriptFam="<-cNoScripts", UpFam="<-cUpBoth", Vias="<-cViaVerify"), {"clones": 1}, None)],
+                                ScriptFam="<-cNoScripts", UpFam="<-cUpBoth", Vias="<-cViaVerify"), {"clones": 1}, None),
+                  # without std there is no thread::panicking(): a panic induced through an instance disables that instance's own verification
+                  ("c08nq", inst(LeafFam="<-C08Leaves", MaxLeaves=1, MaxCalls=2, OnlyMentioned=False, Method='{"r0", "r1", "r2", "d0"}',
+                                 ScriptFam="<-cNoScripts", UpFam="<-cUpBoth", Vias="<-cViaVerify", HasStd=False), {"nostd": True}, None)],
         "thorough": [("c08n", inst(LeafFam="<-C08Leaves", MaxLeaves=2, MaxCalls=3, OnlyMentioned=False, Method='{"r0", "r1", "r2", "d0"}',
                                    ScriptFam="<-cScripts1", UpFam="<-cUpBoth", Vias="<-cViaVerify", HasStd=False), {"nostd": True}, {"num": 60000, "depth": 6}),
                      ("c08t", inst(LeafFam="<-C08Leaves", MaxLeaves=2, MaxCalls=4, OnlyMentioned=False, Method='{"r0", "r1", "r2", "d0"}',
